@@ -6,7 +6,7 @@
     NewBlockDBExt + LoadBlockIndex (= `reopen`), BlockAdd (queue + cache + flush thresholds),
     writeAll / writeOne (compression, roll-over, keep / backup of old data files, 136-byte index
     record), addToCache (LRU with the "never evict an unwritten block" rule), BlockGetInternal/BlockGet,
-    BlockLength, BlockTrusted / BlockInvalid / setBlockFlag (sets `trusted` in memory for EITHER flag),
+    BlockLength, BlockTrusted / BlockInvalid / setBlockFlag (sets `trusted` in memory for BLOCK_TRUSTED only — fix in /repo),
     Idle, Close.
 
   Serialisation / abstraction (stated, and enforced by the harness):
@@ -60,6 +60,9 @@ structure Rec where
   trusted : Bool := false
   compressed : Bool := false
   snappied : Bool := false
+  /-- identity of the Go `*oneBl` pointer: records made by BlockAdd get a fresh number (> 0), the ones made by
+      LoadBlockIndex carry 0 (the queue is empty then, nothing is ever compared with them) -/
+  seq : Nat := 0
   deriving DecidableEq, Repr
 
 structure CacheEnt where
@@ -73,6 +76,8 @@ structure B2W where
   idx : Key
   height : Nat
   txcount : Nat
+  /-- `oneB2W.rec`: the index record this entry was queued for -/
+  seq : Nat := 0
   deriving DecidableEq, Repr
 
 /-- `BlockDBOpts` after NewBlockDBExt's defaulting (`maxCached = 0` means 100) -/
@@ -110,6 +115,8 @@ structure State where
   maxdatfileidx : Nat := 0
   clock : Nat := 1
   isOpen : Bool := false
+  /-- the next fresh record identity (see `Rec.seq`) -/
+  nextSeq : Nat := 1
   deriving Repr
 
 /- constants regenerated from blockdb.go on every run (go/cmd/gen_c16) -/
@@ -257,7 +264,8 @@ def writeOne (env : Env) (s : State) : Option State :=
     match AL.get s.index b2w.idx with
     | none => some s                                  -- "Block not in the index anymore - discard"
     | some r0 =>
-      if r0.ipos.isSome then some s else
+      -- `rec != b2w.rec`: the block was marked invalid while queued and the same hash was added again
+      if r0.seq ≠ b2w.seq ∨ r0.ipos.isSome then some s else
       let cbts := if s.opts.compress then env.enc b2w.data else b2w.data
       some (writeRecord (maybeRoll s cbts.length) b2w r0 cbts)
 
@@ -270,10 +278,10 @@ def writeAll (env : Env) : Nat → State → State
 
 def flush (env : Env) (s : State) : State := writeAll env s.queue.length s
 
-/-- `setBlockFlag`: `trusted = true` in memory whatever the flag; OR the flag into the byte at ipos
+/-- `setBlockFlag`: `trusted = true` in memory when the flag is BLOCK_TRUSTED; OR the flag into the byte at ipos
     (ReadAt/WriteAt at -1 fail silently) -/
 def setBlockFlag (s : State) (k : Key) (r0 : Rec) (fl : Nat) : State :=
-  let s := { s with index := AL.set s.index k { r0 with trusted := true } }
+  let s := { s with index := AL.set s.index k { r0 with trusted := r0.trusted || fl == BLOCK_TRUSTED } }
   match r0.ipos with
   | none => s
   | some p =>
@@ -290,10 +298,11 @@ def blockAdd (env : Env) (s : State) (hash : Bytes) (height txcount : Nat) (trus
   let k := keyOf hash
   match AL.get s.index k with
   | none =>
-    let s := { s with index := AL.set s.index k { ipos := none, trusted := trusted, olen := raw.length } }
+    let s := { s with index := AL.set s.index k { ipos := none, trusted := trusted, olen := raw.length, seq := s.nextSeq } }
     let s := addToCache s k raw
-    let s := { s with datToWrite := s.datToWrite + raw.length,
-                      queue := s.queue ++ [{ data := raw, idx := k, height := height, txcount := txcount % 2^32 }] }
+    let s := { s with datToWrite := s.datToWrite + raw.length, nextSeq := s.nextSeq + 1,
+                      queue := s.queue ++ [{ data := raw, idx := k, height := height, txcount := txcount % 2^32,
+                                             seq := s.nextSeq }] }
     if s.queue.length ≥ MAX_BLOCKS_TO_WRITE ∨ s.datToWrite ≥ MAX_DATA_WRITE then flush env s else s
   | some r0 =>
     if !r0.trusted && trusted then
